@@ -436,7 +436,7 @@ func ruleCloseDBAlwaysDone(c *report.Ctx) {
 	}
 	isDone := func(in ssa.Instruction) bool {
 		cc := an.CallOf(in)
-		return cc != nil && cc.StaticCallee() != nil && an.FuncKey(cc.StaticCallee()) == "(*sync.WaitGroup).Done"
+		return cc != nil && cc.StaticCallee() != nil && an.CanonKeyOf(cc.StaticCallee()) == "(*sync.WaitGroup).Done"
 	}
 	s := &an.Search{P: p, Fn: f, Cut: isDone, GoalReturn: func(r *ssa.Return, pred *ssa.BasicBlock) bool { return true }}
 	if w := s.Run(f.Blocks[0], 0, nil); w != nil {
@@ -486,13 +486,9 @@ func ruleGapWindowExtends(c *report.Ctx) {
 		return
 	}
 	var gap ssa.Value
-	for _, par := range f.Params {
-		if par.Name() == "addressGapLimit" {
-			gap = par
-		}
-	}
-	if gap == nil && len(f.Params) > 0 {
-		gap = f.Params[len(f.Params)-1]
+	// the gap limit is the function's only uint32 parameter (whatever it is called, wherever it stands)
+	if par := onlyParamOfType(f, "uint32"); par != nil {
+		gap = par
 	}
 	// index phis: i with an edge i+1
 	type loop struct {
@@ -691,7 +687,7 @@ func ruleByteOrder(c *report.Ctx, pkgs []string, floor int) {
 			if callee == nil {
 				return
 			}
-			k := an.FuncKey(callee)
+			k := an.CanonKeyOf(callee)
 			var order string
 			switch {
 			case strings.HasPrefix(k, "(encoding/binary.littleEndian)."):
@@ -901,7 +897,7 @@ func ruleBranchCacheComplete(c *report.Ctx) {
 		switch {
 		case cc.IsInvoke() && cc.Method.Name() == "Decrypt":
 			recv = cc.Value
-		case cc.StaticCallee() != nil && cc.StaticCallee().Name() == "Decrypt" && len(cc.Args) > 0:
+		case cc.StaticCallee() != nil && nm(cc.StaticCallee()) == "Decrypt" && len(cc.Args) > 0:
 			recv = cc.Args[0]
 		default:
 			return
@@ -1000,7 +996,7 @@ func ruleScanToCursorInclusive(c *report.Ctx) {
 		return v
 	}
 	n := 0
-	for _, cl := range append([]*ssa.Function{ai}, ai.AnonFuncs...) {
+	for _, cl := range append([]*ssa.Function{ai}, closuresOf(p, ai)...) {
 		an.Instrs(cl, func(in ssa.Instruction) {
 			cc := an.CallOf(in)
 			if cc == nil || !cc.IsInvoke() || cc.Method.Name() != "FetchScriptHashRelatedTx" {
@@ -1363,7 +1359,7 @@ func ruleSharedBigIntsImmutable(c *report.Ctx, pkgs []string, floor int) {
 				return
 			}
 			callee := cc.StaticCallee()
-			if callee == nil || !strings.HasPrefix(an.FuncKey(callee), "(*math/big.Int).") || len(cc.Args) == 0 {
+			if callee == nil || !strings.HasPrefix(an.CanonKeyOf(callee), "(*math/big.Int).") || len(cc.Args) == 0 {
 				return
 			}
 			g := fromPackageVar(cc.Args[0], 0)
@@ -1733,7 +1729,7 @@ func ruleFastForwardGate(c *report.Ctx) {
 	c.OK(sk(st)+":fast-forward-gate", "guarded by !flag", posOf(c, skip))
 	// every store into the flag
 	n := 0
-	for _, f := range append([]*ssa.Function{st}, st.AnonFuncs...) {
+	for _, f := range append([]*ssa.Function{st}, closuresOf(p, st)...) {
 		an.Instrs(f, func(in ssa.Instruction) {
 			s, ok := in.(*ssa.Store)
 			if !ok {
@@ -1929,9 +1925,21 @@ func ruleAPIOwnerOfStaking(c *report.Ctx) {
 		}
 		srcs = append(srcs, src{v, at})
 	}
+	// the recipient is the result named so (the first string result if the results are unnamed)
+	ri := -1
+	for i := 0; i < f.Signature.Results().Len(); i++ {
+		rv := f.Signature.Results().At(i)
+		if rv.Name() == "recipient" || (ri < 0 && rv.Name() == "" && rv.Type().String() == "string") {
+			ri = i
+		}
+	}
+	if ri < 0 {
+		c.Fail(sk(f)+":recipient-source", "anchor lost: extractAddressInfos has no recipient result", p.Pos(f.Pos()))
+		return
+	}
 	for _, b := range f.Blocks {
-		if r, ok := b.Instrs[len(b.Instrs)-1].(*ssa.Return); ok && len(r.Results) > 1 {
-			walk(an.RetOperand(r, 1), b, map[ssa.Value]bool{})
+		if r, ok := b.Instrs[len(b.Instrs)-1].(*ssa.Return); ok && len(r.Results) > ri {
+			walk(an.RetOperand(r, ri), b, map[ssa.Value]bool{})
 		}
 	}
 	n := 0
@@ -2149,20 +2157,42 @@ func ruleChildNumberRoles(c *report.Ctx) {
 	if f == nil {
 		return
 	}
-	// (1) the return values come from the right keys
+	// (1) each of the two counters is returned once, read under its own key; which result carries which counter is
+	// read off the code (the order of the results is the function's own business)
+	role := map[int]string{} // result index → "internal" / "external"
 	for _, b := range f.Blocks {
 		r, ok := b.Instrs[len(b.Instrs)-1].(*ssa.Return)
 		if !ok || p.ClassifyReturn(r, nil) == an.RetError {
 			continue
 		}
-		for idx, want := range []string{"internalChildNumName", "externalChildNumName"} {
+		for idx := 0; idx < 2 && idx < len(r.Results); idx++ {
 			d := p.Desc(an.RetOperand(r, idx))
-			key := sk(f) + ":result#" + itoa(idx)
-			if strings.Contains(d, want) {
-				c.OK(key, "read under "+want, posOf(c, r))
-			} else {
-				c.Fail(key, "result #"+itoa(idx)+" of fetchChildNum is "+d+", not the value stored under "+want, posOf(c, r))
+			in, ex := strings.Contains(d, "internalChildNumName"), strings.Contains(d, "externalChildNumName")
+			switch {
+			case in && !ex:
+				role[idx] = "internal"
+			case ex && !in:
+				role[idx] = "external"
+			default:
+				role[idx] = "?" + d
 			}
+		}
+	}
+	recIdx := map[string]int{"internal": 0, "external": 1} // the recorded numbering, for stable keys
+	for _, want := range []string{"internal", "external"} {
+		key := sk(f) + ":result#" + itoa(recIdx[want])
+		n, other := 0, ""
+		for idx := 0; idx < 2; idx++ {
+			if role[idx] == want {
+				n++
+			} else if strings.HasPrefix(role[idx], "?") {
+				other = role[idx][1:]
+			}
+		}
+		if n == 1 {
+			c.OK(key, "the "+want+" counter is read under "+want+"ChildNumName", p.Pos(f.Pos()))
+		} else {
+			c.Fail(key, "result #"+itoa(recIdx[want])+" of fetchChildNum is "+other+", not the value stored under "+want+"ChildNumName (the "+want+" counter is returned "+itoa(n)+" times)", p.Pos(f.Pos()))
 		}
 	}
 	// (2) callers
@@ -2176,6 +2206,10 @@ func ruleChildNumberRoles(c *report.Ctx) {
 				ex, ok := r.(*ssa.Extract)
 				if !ok || ex.Index > 1 {
 					continue
+				}
+				rl := role[ex.Index]
+				if rl != "internal" && rl != "external" {
+					continue // reported above
 				}
 				for _, u := range *ex.Referrers() {
 					st, ok := u.(*ssa.Store)
@@ -2192,11 +2226,11 @@ func ruleChildNumberRoles(c *report.Ctx) {
 					if !isInt && !isExt {
 						continue
 					}
-					key := sk(g) + ":fetchChildNum#" + itoa(ex.Index) + "=>" + name
-					if (ex.Index == 0 && isInt) || (ex.Index == 1 && isExt) {
+					key := sk(g) + ":fetchChildNum#" + itoa(recIdx[rl]) + "=>" + name
+					if (rl == "internal" && isInt) || (rl == "external" && isExt) {
 						c.OK(key, "role preserved", posOf(c, u))
 					} else {
-						c.Fail(key, sk(g)+" stores result #"+itoa(ex.Index)+" of fetchChildNum (the "+[]string{"internal", "external"}[ex.Index]+" counter) into "+name+": the two branch counters are swapped, so an exported keystore restores fewer receive addresses than were issued and invents change addresses", posOf(c, u))
+						c.Fail(key, sk(g)+" stores the "+rl+" counter returned by fetchChildNum into "+name+": the two branch counters are swapped, so an exported keystore restores fewer receive addresses than were issued and invents change addresses", posOf(c, u))
 					}
 				}
 			}
@@ -2223,7 +2257,7 @@ func ruleWipedCacheDropped(c *report.Ctx) {
 		if callee == nil {
 			return
 		}
-		k := an.FuncKey(callee)
+		k := an.CanonKeyOf(callee)
 		if !(strings.HasSuffix(k, "zero.BigInt") || strings.HasSuffix(k, "ExtendedKey).Zero")) {
 			return
 		}
@@ -2339,7 +2373,7 @@ func ruleImportRetryOverride(c *report.Ctx) {
 		return
 	}
 	n := 0
-	for _, f := range append([]*ssa.Function{w}, w.AnonFuncs...) {
+	for _, f := range append([]*ssa.Function{w}, closuresOf(p, w)...) {
 		for _, s := range calls(f, push) {
 			// the guard !fin: fin = phi(asyncImport#0 | true …)
 			for _, a := range p.GuardsOf(s) {
@@ -2651,7 +2685,7 @@ func rulePrefixTerminated(c *report.Ctx) {
 			if cc == nil || cc.StaticCallee() == nil || len(cc.Args) == 0 {
 				return
 			}
-			k := an.FuncKey(cc.StaticCallee())
+			k := an.CanonKeyOf(cc.StaticCallee())
 			var arg ssa.Value
 			switch {
 			case strings.HasSuffix(k, "leveldb/util.BytesPrefix"):
